@@ -222,7 +222,12 @@ fn run_case(seed: u64, idx: u64, _tier: Tier, out: &mut CaseOut) {
                     let nb = |v: &Vec<&str>| -> Vec<String> {
                         v.iter().map(|l| rstrip(l).to_string()).filter(|l| !l.is_empty()).collect()
                     };
-                    let sig = if nb(&xl) == nb(&yl) && yl.iter().all(|q| sw_min(q) <= w) {
+                    // (inside table cells the extra blank line shows up as rows of
+                    // bars and padding: compare the lines that carry document text)
+                    let tp = |v: &Vec<&str>| -> Vec<String> {
+                        v.iter().map(|l| t_proj(l)).filter(|l| !l.is_empty()).collect()
+                    };
+                    let sig = if (nb(&xl) == nb(&yl) || tp(&xl) == tp(&yl)) && yl.iter().all(|q| sw_min(q) <= w) {
                         "pad-adds-or-removes-blank-lines"
                     } else {
                         "pad-changes-more-than-trailing-spaces"
@@ -296,6 +301,14 @@ fn run_case(seed: u64, idx: u64, _tier: Tier, out: &mut CaseOut) {
                     let mut ys: Vec<char> = t_proj(y).chars().collect();
                     xs.sort_unstable();
                     ys.sort_unstable();
+                    // if the base rendering itself lost text (C03's known table
+                    // finding) the comparison says nothing about the option
+                    let mut vs: Vec<char> = t_proj(&crate::odom::visible_string(&crate::odom::parse(&input))).chars().collect();
+                    vs.sort_unstable();
+                    if xs != vs {
+                        out.inc("base_lost_text(see C03)");
+                        return;
+                    }
                     if xs != ys {
                         viol(out, if raw {"raw-changes-text"} else {"no_borders-changes-text"}, "the option changed which document text is rendered".into(), &input, w, &base, &opt, &a, &b);
                         return;
